@@ -17,7 +17,10 @@ META = {
                    "every decode path (capture-time skip and iteration), thisUpdate ≤ nextUpdate is enforced, len counts "
                    "exactly the accepted entries, and ManifestHash::verify fails exactly on inequality with the digest.",
     "not_decided": ["SHA-256 itself", "decoder completeness for every conforming encoder"],
-    "trusted_base": ["bcder decode combinators propagate closure errors", "std slice::split_first / Iterator::all semantics"],
+    "trusted_base": ["bcder decode combinators propagate closure errors",
+                     "documented semantics of the std slice / slice-iterator / Option / Result functions the name-language "
+                     "interpreter has transfer functions for (split_first, next, position, find, all, any, split, splitn, "
+                     "split_at, len, is_empty, index by range, starts_with, strip_prefix, map, ok_or, then_some, …)"],
 }
 
 URI_CLASS_SPEC = set(b"!$%&'()*+,-./0123456789:;=ABCDEFGHIJKLMNOPQRSTUVWXYZ_abcdefghijklmnopqrstuvwxyz~")
@@ -114,10 +117,18 @@ def run(ctx):
 
     # ---- C14.a the check is on every decode path -------------------------------
     checks = {}
+    parsers = entry_parsers(f)
     for which in ("skip_opt_in", "take_opt_from"):
-        b = find_one(ctx, f, "R-CHK", r"manifest::FileAndHash.*::%s$" % which, which)
+        # the entry parser of each decode path (capture: "skip_opt_in", iteration: "take_opt_from" at review time) is the
+        # function below that path which reads the IA5String — found by that, not by its private name
+        if parsers.get(which):
+            b = f.body(parsers[which])
+            ctx.saw_fn(b.name)
+        else:
+            b = find_one(ctx, f, "R-CHK", r"manifest::FileAndHash.*::%s$" % which, which)
         if b is None:
             continue
+        parsers[which] = b.name
 
         def sink(c):
             if c.res not in good_checkers:         # a check whose accepted language is the specified one
@@ -133,13 +144,19 @@ def run(ctx):
                "FileAndHash::%s accepts an entry only if its name passed validate_file_name" % which, where=b.loc,
                detail=None if ok else K.why(f, mp, b.name))
         # checked-call set of the closure (for sibling comparison)
-        cl = [x for x in f.children(b.name)]
+        under = _reachable_fns(f, b.name, depth=3)
+        cl = [n for n in f.bodies if root_fn(f, n) in under]
         names = set()
         for n in cl:
             for c in f.body(n).calls():
-                if c.is_static and c.res and (c.res.endswith("validate_file_name") or "RestrictedString" in c.res and c.name == "take_from"
-                                              or ("BitString" in c.res and c.name in ("take_from", "skip_in"))):
-                    names.add(short(c.res).replace("skip_in", "take/skip").replace("take_from", "take/skip") if "BitString" in c.res else short(c.res))
+                if not (c.is_static and c.res):
+                    continue
+                if c.res in checkers:
+                    names.add("name check" + ("" if c.res in good_checkers else " (language differs)"))
+                elif "RestrictedString" in c.res and c.name == "take_from":
+                    names.add(short(c.res))
+                elif "BitString" in c.res and c.name in ("take_from", "skip_in"):
+                    names.add(short(c.res).replace("skip_in", "take/skip").replace("take_from", "take/skip"))
         checks[which] = names
     if len(checks) == 2:
         ctx.ob("R-SIB", "FileAndHash:skip_opt_in≡take_opt_from", checks["skip_opt_in"] == checks["take_opt_from"],
@@ -153,7 +170,7 @@ def run(ctx):
         ctx.saw_fn(nb.name)
         cs = [c for c in nb.calls() if c.name == "decode_partial" and (c.res or "").startswith("bcder::")]
         ok = len(cs) == 1 and K.arg_renders(cs[0])[0] == "self.0"
-        inner = [c for n in f.children(nb.name) for c in f.body(n).calls() if (c.res or "").endswith("::take_opt_from")]
+        inner = [c for n in f.children(nb.name) for c in f.body(n).calls() if c.res and c.res == parsers.get("take_opt_from")]
         ctx.ob("R-SIB", "FileListIter::next:reparses-captured-list-in-its-own-mode", ok and len(inner) == 1,
                "FileListIter::next re-decodes the captured list with Captured::decode_partial (capture's own mode) and "
                "FileAndHash::take_opt_from", where=nb.loc)
@@ -162,7 +179,7 @@ def run(ctx):
     if mc is not None:
         # the capture loop is found by what it does (it is the caller of FileAndHash::skip_opt_in), wherever it lives
         # below ManifestContent::take_from: in one of its closures or in a private function those call
-        is_skip = lambda c: re.search(r"manifest::FileAndHash.*::skip_opt_in$", c.res or "") is not None
+        is_skip = lambda c: bool(c.res) and c.res == parsers.get("skip_opt_in")
         below = _reachable_fns(f, "repository::manifest::ManifestContent::take_from")
         loop_b = [bd for n, bd in f.bodies.items() if root_fn(f, n) in below and any(is_skip(c) for c in bd.calls())]
         counter = None
@@ -186,7 +203,7 @@ def run(ctx):
             if len(counters) == 1:
                 counter = list(counters)[0]
             res = []
-            entry_rx = r"^Try::branch\(FileAndHash::skip_opt_in\([^()]*\)\)↓Continue\.0$"
+            entry_rx = r"^Try::branch\(%s\([^()]*\)\)↓Continue\.0$" % re.escape(short(parsers.get("skip_opt_in") or "FileAndHash::skip_opt_in"))
             for sw, some_t in option_some_edges(lb, oc.sym, entry_rx):
                 reach = lb.reachable(some_t, removed_blocks=set(oc.fail_blocks) | inc_blocks)
                 bad = sw in reach or any(c.bb in reach for c in lb.calls() if is_skip(c)) or \
@@ -285,16 +302,44 @@ def run(ctx):
                "decoding fails when thisUpdate is after nextUpdate (equality allowed)", where=mc.loc)
 
     # ---- C14.b' iter_uris joins the validated name onto the base ----------------
-    iu = find_one(ctx, f, "R-FLOW", r"manifest::ManifestContent::iter_uris::\{closure#0\}$", "iter_uris closure")
-    if iu is not None:
+    iu_fn = "repository::manifest::ManifestContent::iter_uris"
+    joiners = [f.body(n) for n in [iu_fn] + list(f.children(iu_fn)) if f.body(n) is not None and
+               any(c.res == "uri::Rsync::join" for c in f.body(n).calls())]
+    if len(joiners) != 1:
+        # (a join moved into a private helper is seen again once that helper is folded back: same key in every view)
+        ctx.ob("R-FLOW", "iter_uris:join(base, entry name)", False,
+               "iter_uris joins exactly the entry's (validated) file name onto the caller's base URI",
+               where=f.body(iu_fn).loc if f.body(iu_fn) else None,
+               detail="bodies of ManifestContent::iter_uris that call Rsync::join: %d" % len(joiners))
+    else:
+        iu = joiners[0]
+        ctx.saw_fn(iu.name)
         js = [c for c in iu.calls() if c.res == "uri::Rsync::join"]
         ok = False
         detail = None
         if len(js) == 1:
-            a = K.arg_renders(js[0])
-            detail = a
-            # the joined name is the entry handed to the closure (its element parameter, whatever it is called)
-            ok = a[0] == "^base" and iu.arg_count == 2 and K.alpha(a[1], iu) == "FileAndHash::into_pair(%2).0"
+            # captures are read in the vocabulary of iter_uris (parameters are positions there)
+            env = {}
+            parent = f.body(iu_fn)
+            if iu.name != iu_fn and parent is not None:
+                ps = K.sym_of(parent)
+                for bi, blk in enumerate(parent.blocks):
+                    for st in blk["stmts"]:
+                        if st["s"] == "assign" and st["rv"]["r"] == "agg" and st["rv"].get("def") == iu.name:
+                            _, env = K.closure_env(f, ps.rvalue(st["rv"]), "%elem")
+            from engine.sym import substituting
+            ts = K.arg_terms(js[0])
+            with substituting(env or {}):
+                a0 = render(strip_deep(ts[0]))
+            name_t = fold_accessors(f, ts[1])
+            a1 = K.alpha(render(name_t), iu)
+            detail = [a0, a1]
+            # the joined name: the `file` field of the element handed to the closure — read directly, through
+            # into_pair().0 (whose body is inspected), or through the accessor
+            elem = "%%%d" % iu.arg_count if iu.name != iu_fn else None
+            okname = elem is not None and (a1 == "%s.file" % elem or
+                                           (a1 == "FileAndHash::into_pair(%s).0" % elem and _pair_first_is_file(f)))
+            ok = a0 in ("base", "^base") and okname
         ctx.ob("R-FLOW", "iter_uris:join(base, entry name)", ok,
                "iter_uris joins exactly the entry's (validated) file name onto the caller's base URI", where=iu.loc, detail=detail)
 
@@ -429,6 +474,43 @@ def fold_accessors(f, t, depth=0):
     if k == "closure":
         return ("closure", t[1], tuple(fold_accessors(f, a, depth + 1) for a in t[2]))
     return t
+
+
+
+def _pair_first_is_file(f):
+    """FileAndHash::into_pair returns (self.file, self.hash) — component 0 is the file name."""
+    for n, bd in f.bodies.items():
+        if n.endswith("::into_pair") and bd.rec.get("impl_adt") == "repository::manifest::FileAndHash":
+            r = strip_deep(Sym(bd).local(0))
+            return r[0] == "agg" and len(r[3]) == 2 and render(strip_deep(r[3][0][1])) == "self.file"
+    return False
+
+
+
+def entry_parsers(f):
+    """{"skip_opt_in": capture-side entry parser, "take_opt_from": iteration-side entry parser}: for each public decode
+    path, the one crate function called from it (or its closures) below which the IA5String of an entry is read."""
+    memo = {}
+
+    def reads_ia5(fn):
+        if fn not in memo:
+            memo[fn] = False
+            under = _reachable_fns(f, fn, depth=3)
+            memo[fn] = any(c.name == "take_from" and any("Ia5CharSet" in g for g in (c.ga or ()))
+                           for n, bd in f.bodies.items() if root_fn(f, n) in under for c in bd.calls())
+        return memo[fn]
+    out = {}
+    for role, pub in zip(("skip_opt_in", "take_opt_from"), PUBLIC_DECODE_PATHS):
+        if f.body(pub) is None:
+            continue
+        # an entry parser answers Result<Option<_>, _> (one optional SEQUENCE per call: the protocol the capture loop and
+        # the iterator rely on); a helper that merely holds the loop, or one that only reads the name, does not
+        cands = {g for g in _reachable_fns(f, pub, depth=5)
+                 if g != pub and f.body(g) is not None and "{closure" not in g and
+                 re.match(r"^(std|core)::result::Result<(std|core)::option::Option<", f.body(g).ret_ty or "") and reads_ia5(g)}
+        if len(cands) == 1:
+            out[role] = cands.pop()
+    return out
 
 
 def _root_local(body, l, depth=0):
@@ -921,6 +1003,11 @@ def check_join_dot_segments(ctx, f):
     """What Rsync::check_path (hence Rsync::join) rejects as a dot segment is exactly "." and ".." — not, say, every
     segment that starts with a dot: a manifest may legitimately list ".cer"-like names that the name check accepts."""
     b = f.body("uri::Rsync::check_path")
+    builders = [bd for n, bd in f.bodies.items() if (bd.file or "").endswith("uri.rs") and
+                any(st["s"] == "assign" and st["rv"]["r"] == "agg" and st["rv"].get("adt") == "uri::Error" and
+                    st["rv"].get("variant") == "DotSegments" for blk in bd.blocks for st in blk["stmts"])]
+    if len(builders) == 1:
+        b = builders[0]                   # whatever it is called: the one place that answers DotSegments
     if b is None:
         return ctx.missing("R-CLS", "Rsync::check_path", "uri::Rsync::check_path")
     ctx.saw_fn(b.name)
@@ -1036,7 +1123,7 @@ def _vmap(v, fn):
 
 
 class ShapeExec:
-    def __init__(self, facts, max_steps=60000):
+    def __init__(self, facts, max_steps=400000):
         self.f = facts
         self.n = 0
         self.steps = 0
@@ -1600,6 +1687,19 @@ class ShapeExec:
                         for s3, tr in self.fork_class(s2, d[1], frozenset(listed)):
                             if not tr:
                                 work.append((s3, t["otherwise"], 0))
+                    elif d[0] == "lin":
+                        rest = [s2]
+                        for val, tb in t["targets"]:
+                            nxt_ = []
+                            for s3 in rest:
+                                for s4, tr in self.cmp0(s3, _lin_add(d, ("int", val), -1), "Eq"):
+                                    if tr:
+                                        work.append((s4, tb, 0))
+                                    else:
+                                        nxt_.append(s4)
+                            rest = nxt_
+                        for s3 in rest:
+                            work.append((s3, t["otherwise"], 0))
                     else:
                         raise LangFail("branch on " + d[0])
             elif k == "call":
@@ -1696,6 +1796,27 @@ class ShapeExec:
             x = self.deref(st, args[1])
             if x[0] == "byte":
                 return boolv(self.fork_class(st, x[1], frozenset(a0[1])))
+        # ---- bool / usize helpers
+        if name == "then_some" and k0 == "int" and a0[1] in (0, 1) and len(args) == 2:
+            return one(_some(args[1]) if a0[1] else _NONE)
+        if name == "then" and k0 == "int" and a0[1] in (0, 1) and len(args) == 2:
+            return [(s, _some(v)) for s, v in self.apply(st, args[1], [], depth)] if a0[1] else one(_NONE)
+        if name in ("checked_sub", "saturating_sub", "checked_add", "saturating_add", "wrapping_add") and len(args) == 2 and k0 in ("int", "lin"):
+            y = self.as_num(st, args[1])
+            if name.endswith("add"):
+                r = _lin_add(a0, y)
+                return one(_some(r) if name.startswith("checked") else r)
+            out = []
+            for s, ge in self.cmp0(st, _lin_add(a0, y, -1), "Ge"):
+                r = _lin_add(a0, y, -1)
+                if name.startswith("checked"):
+                    out.append((s, _some(r) if ge else _NONE))
+                else:
+                    out.append((s, r if ge else ("int", 0)))
+            return out
+        if name in ("min", "max") and len(args) == 2 and k0 in ("int", "lin"):
+            y = self.as_num(st, args[1])
+            return [(s, (a0 if le else y) if name == "min" else (y if le else a0)) for s, le in self.cmp0(st, _lin_add(a0, y, -1), "Le")]
         # ---- slices
         if k0 == "slice":
             a, b = a0[1], a0[2]
